@@ -457,6 +457,11 @@ class ResultQuantifier(CanBehaveLikeAVariable[T], ABC):
                 for cache in vars(node).values():
                     if isinstance(cache, IndexedCache):
                         cache.clear()
+                if isinstance(node, Variable) and node._domain_source_ is not None \
+                        and isinstance(node._domain_source_.domain, SymbolicExpression):
+                    # its domain is a suspended evaluation of that expression, whose state was just reset: start over
+                    node._domain_ = HashedIterable()
+                    node._update_domain_(node._domain_source_.domain)
 
     @property
     def _nodes_reached_by_evaluation_(self) -> List[SymbolicExpression]:
@@ -479,6 +484,9 @@ class ResultQuantifier(CanBehaveLikeAVariable[T], ABC):
                 stack.extend(node._child_vars_.values())
                 if node._kwargs_expression_ is not None:
                     stack.append(node._kwargs_expression_)
+                if node._domain_source_ is not None and isinstance(node._domain_source_.domain, SymbolicExpression):
+                    # a variable ranging over the results of another expression (a query, a variable) evaluates it
+                    stack.append(node._domain_source_.domain)
         return list(reached.values())
 
     def _process_result_(self, result: Dict[int, HashedValue]) -> TypingUnion[T, UnificationDict]:
@@ -581,15 +589,19 @@ class An(ResultQuantifier[T]):
         self._node_.wrap_subtree = True
 
     def evaluate(self) -> Iterable[TypingUnion[T, Dict[TypingUnion[T, SymbolicExpression[T]], T]]]:
-        if self._running_evaluation_ is not None:
-            # An earlier evaluation of this query is still suspended (its iterator was neither exhausted nor closed):
+        # this query and the queries it evaluates on the way (sub-queries, queries that supply a variable's domain)
+        queries = [node for node in self._nodes_reached_by_evaluation_ if isinstance(node, An)]
+        if any(query._running_evaluation_ is not None for query in queries):
+            # An earlier evaluation of one of them is still suspended (its iterator was neither exhausted nor closed):
             # the duplicate tracking, the partly filled result caches and the "constraints are being evaluated" marks it
             # left behind must not answer for this one.
             self._reset_after_evaluation_(completed=False)
             for node in self._nodes_reached_by_evaluation_:
                 if isinstance(node, Variable):
                     node._evaluating_kwargs_expression_ = False
-        this_evaluation = self._running_evaluation_ = object()
+        this_evaluation = object()
+        for query in queries:
+            query._running_evaluation_ = this_evaluation
         results = self._evaluate__()
         completed = False
         try:
@@ -605,8 +617,9 @@ class An(ResultQuantifier[T]):
             completed = True
         finally:
             results.close()
-            if self._running_evaluation_ is this_evaluation:
-                self._running_evaluation_ = None
+            for query in queries:
+                if query._running_evaluation_ is this_evaluation:
+                    query._running_evaluation_ = None
             if self._running_evaluation_ is None:
                 # (the iterator of an earlier evaluation that is closed while a later one runs leaves its state alone)
                 self._reset_after_evaluation_(completed)
